@@ -140,6 +140,10 @@ def eq(
 ) -> bool:
     x1, y1, z1 = p1
     x2, y2, z2 = p2
+    # Any point with z == 0 is the point at infinity, including (0, 0, 0),
+    # which cross-multiplication would equate with every point
+    if is_inf(p1) or is_inf(p2):
+        return is_inf(p1) and is_inf(p2)
     return x1 * z2 == x2 * z1 and y1 * z2 == y2 * z1
 
 
